@@ -182,15 +182,19 @@ def run_cell(res, oname, slow, method, con, situation):
         site.add_resource(["known"], make_resource(fn, 0.5 if slow else 0.0,
                                                    observable={"obs-declined": "declined", "obs-accepted": "accepted"}.get(situation)))
         site.add_resource(["getonly"], make_resource(lambda: Message(payload=b"g"), 0.0, only=("get",)))
+        if situation == "wkc-nomatch":
+            site.add_resource([".well-known", "core"], resource.WKCResource(site.get_resources_as_linkheader))
         node = w.add_context("srv", *SRV, site=None if situation == "nosite" else site)
         w.add_peer(AutoAck("p1", *P1))
         paths = {"known": [b"known"], "unknown": [b"nowhere"], "unknown-root": [], "unknown-deep": [b"known", b"deeper"],
                  "unknown-slash": [b"known", b""], "unimplemented": [b"getonly"], "nosite": [b"known"],
-                 "obs-declined": [b"known"], "obs-accepted": [b"known"]}.get(situation, [b"known"])
+                 "obs-declined": [b"known"], "obs-accepted": [b"known"], "wkc-nomatch": [b".well-known", b"core"]}.get(situation, [b"known"])
         tok = b"\xC9\x01"
         obs = [(6, b"")] if situation.startswith("obs-") else []    # a registration attempt at an observable resource
         nr = int(situation[2:]) if situation.startswith("nr") else None
         nropt = [(258, rc.uint(nr))] if nr is not None else []
+        if situation == "wkc-nomatch":
+            nropt = [(15, b"rt=nothing-of-the-kind")]      # a discovery filter that matches nothing: the (empty) listing is still an answer
         mid = 0 if situation == "mid0" else 0x3001       # (mid0: the known path, under the one message ID that is falsy)
         midb = bytes([mid >> 8, mid & 0xFF])
         w.inject(P1, SRV, rc.encode((rc.CON if con else rc.NON, method, mid, tok, obs + [(11, p) for p in paths] + nropt, b"")))
@@ -208,6 +212,8 @@ def run_cell(res, oname, slow, method, con, situation):
                 want = (default_code(method), exp[1])
             else:
                 want = exp
+        elif situation == "wkc-nomatch":
+            want = (69, b"")
         elif situation == "unimplemented":
             want = (133, None)
         else:
@@ -565,6 +571,8 @@ def run(tier, seed, jobs):
             for sit in ("unknown-root", "unknown-deep", "unknown-slash"):
                 cells.append(("ret-empty", False, method, con, sit))
             cells.append(("ret-empty", False, method, con, "nosite"))
+            if method == 1:
+                cells.append(("ret-empty", False, method, con, "wkc-nomatch"))
             if method != 1:
                 cells.append(("ret-empty", False, method, con, "unimplemented"))
     work = [("cells", cells[i::48]) for i in range(48)]
